@@ -848,10 +848,7 @@ def apply_stream(run, drv, n_cases):
                          "lt_other", "ge_other_shift", "gt_scalar", "all_any_gt", "all_any_ge0"])
         spelling = rng.choice(["apply", "operator"])
         other_kind = rng.choice(["dense", "lazy"])
-        if spelling == "operator":
-            # `lazy - dense_td` raises KeyError (the arithmetic of base.py lists the entries member by
-            # member, ('0', 'a'), and looks them up in the operand): lazy-only raise, recorded in the report
-            other_kind = "lazy"
+        # (`lazy - dense_td` raised KeyError before main's "lazy-stack member-wise dispatch of pointwise ops": both operand kinds now)
         fs = Raw("(feats" + "".join(" (" + " ".join([k] + [str(x) for x in f]) + ")" for k, f in feats) + ")")
         metas.append((bs, n, sd, feats, op, spelling, other_kind))
         reqs.append(sx("c08.apply", ["bs"] + list(bs), n, sd, fs, Raw(op)))
@@ -1176,6 +1173,7 @@ def main():
     O.read_ops_stream(run, 1200 if quick else 14000)
     O.mut_ops_stream(run, 800 if quick else 12000)
     O.member_write_stream(run, 300 if quick else 4000)
+    O.lock_history_stream(run, 300 if quick else 4000)
     O.cat_stack_stream(run, 500 if quick else 8000)
     O.stack_of_stacks_stream(run, 500 if quick else 8000)
     O.alias_stream(run, 500 if quick else 8000)
